@@ -25,9 +25,11 @@ LEVEL = ('decides: infeasibility is declared only for a conflict at decision lev
          'window); assumptions are overwritten per solve (U11); label TABLE of the recursive minimiser'
          ' — Keep only for predicates of the nogood, Removable only after all antecedents, only Poison'
          " before the reason is read (U12); the no-learning resolver's flipped decision carries a "
-         'reason over every earlier level (U13); WAKE/READD of the nogood watchers (U14/U15). Does not'
-         ' decide soundness of propagation, explanations or minimisation, nor completeness/termination'
-         ' of search')
+         'reason over every earlier level (U13); WAKE/READD of the nogood watchers (U14/U15). '
+         'semantic-minimiser exactness (U18/U19), preprocessed permanent nogoods (U20), reified lazy '
+         'reasons keep the literal (U21), equality halves merged when minimisation is off (U22), '
+         'conflict resolution always returns in the Solving state (U23). Does not decide soundness of '
+         'propagation, explanations or minimisation, nor completeness/termination of search')
 TECHNIQUE = "static analysis: dominance, who-may-construct, symbolic table recovery, typestate over rustc MIR"
 
 
